@@ -63,6 +63,15 @@ func (g *opGen) send(src, dst string, amt int64, od, naming string) Op {
 	return op
 }
 
+// template: a client-side script template - accounts and amount are all variables, the text never changes.
+func (g *opGen) template(primary, backup, dst string, amt int64) Op {
+	t := g.tag()
+	op := Op{Kind: "script", Tag: t, Meta: map[string]string{"req": t}}
+	op.Plain = "vars {\n\taccount $primary\n\taccount $backup\n\taccount $dst\n\tmonetary $amt\n}\nsend $amt (\n\tsource = {\n\t\t$primary\n\t\t$backup\n\t}\n\tdestination = $dst\n)\n"
+	op.Vars = map[string]string{"primary": primary, "backup": backup, "dst": dst, "amt": fmt.Sprintf("%s %d", asset, amt)}
+	return op
+}
+
 func (g *opGen) fund(acc string, amt int64) Op { return g.send("world", acc, amt, "", "literal") }
 
 func (g *opGen) postings(ps ...PostingJ) Op {
@@ -81,6 +90,12 @@ func (g *opGen) saveMetaAcc(acc string, kv map[string]string) Op {
 		m[k] = v
 	}
 	return Op{Kind: "savemeta", Tag: t, TargetType: "ACCOUNT", TargetID: acc, Meta: m}
+}
+
+// saveMetaEmpty: a set-metadata write with no key at all; the entry is attributed through its (unique) target account.
+func (g *opGen) saveMetaEmpty() Op {
+	t := "tagged:" + g.tag()
+	return Op{Kind: "savemeta", Tag: t, TargetType: "ACCOUNT", TargetID: t, Meta: map[string]string{}}
 }
 
 func (g *opGen) saveMetaTx(txid string) Op {
@@ -278,7 +293,13 @@ func genChainScenario(r *vc.Rand) *Scenario {
 	sc.Phases = append(sc.Phases, setupPhase(setup...))
 	nPh := r.Range(1, 3)
 	for p := 0; p < nPh; p++ {
-		ph := Phase{Clients: g.clients(r.Range(2, 5), 3, func() Op { return g.mixedOp(nTx, true) }), DieAt: -1, WorkerW: vc.Pick(r, []int{1, 1, 4})}
+		ph := Phase{Clients: g.clients(r.Range(2, 5), 3, func() Op {
+			op := g.mixedOp(nTx, true)
+			if r.Chance(1, 5) && !op.DryRun { // the key is part of the chained content, for every kind of entry
+				op.IK = "ik-" + op.Tag
+			}
+			return op
+		}), DieAt: -1, WorkerW: vc.Pick(r, []int{1, 1, 4})}
 		if p < nPh-1 && r.Bool() {
 			ph.DieAt = r.Intn(40)
 		}
@@ -305,6 +326,9 @@ func genContention(r *vc.Rand) *Scenario {
 		cfg["src_"+a] = a
 	}
 	setup = append(setup, g.saveMetaAcc("cfg", cfg))
+	if r.Bool() { // the template has been used before, with other bindings (the compiled program is cached by text)
+		setup = append(setup, g.template(vc.Pick(r, []string{"world", "spare0", "world"}), vc.Pick(r, []string{"spare1", "world"}), "sink0", 5))
+	}
 	sc.Phases = append(sc.Phases, setupPhase(setup...))
 	mk := func() Op {
 		src := vc.Pick(r, hot)
@@ -319,6 +343,9 @@ func genContention(r *vc.Rand) *Scenario {
 			first := vc.Pick(r, []string{"@" + src, "$one"})
 			op.Plain = fmt.Sprintf("vars {\n\taccount $one\n\taccount $two\n}\nsend [%s %d] (\n\tsource = {\n\t\tmax [%s %d] from %s\n\t\t$two\n\t}\n\tdestination = @sink\n)\n", asset, amt, asset, amt/2, first)
 			return op
+		}
+		if r.Chance(1, 6) {
+			return g.template(src, fmt.Sprintf("spare%d", r.Intn(4)), fmt.Sprintf("sink%d", r.Intn(3)), amt)
 		}
 		switch r.Intn(10) {
 		case 0, 1:
@@ -378,6 +405,14 @@ func genIdempotency(r *vc.Rand) *Scenario {
 			op = g.delMetaAcc(vc.Pick(r, accts))
 		}
 		op.IK = fmt.Sprintf("key-%d-%d", k, r.Intn(1000))
+		switch r.Intn(6) { // keys are opaque client strings: long ones, and ones differing only far from the start
+		case 0:
+			op.IK += strings.Repeat("k", r.Range(240, 300))
+		case 1:
+			op.IK = strings.Repeat("x", 255) + op.IK
+		case 2:
+			op.IK += " é/?&=" + strings.Repeat("\u00e9", r.Intn(140))
+		}
 		dups = append(dups, dup{op, r.Range(2, 6)})
 	}
 	// spread the attempts over clients (concurrent) and over positions inside a client (sequential)
@@ -432,8 +467,18 @@ func genIdempotency(r *vc.Rand) *Scenario {
 func genReferences(r *vc.Rand) *Scenario {
 	g := &opGen{r: r}
 	sc := &Scenario{Kind: "references"}
-	sc.Phases = append(sc.Phases, setupPhase(g.fund("alice", 200), g.fund("bob", 30)))
 	ref := fmt.Sprintf("ref-%d", r.Intn(1000))
+	setup := []Op{g.fund("alice", 200), g.fund("bob", 30)}
+	carrier := r.Chance(1, 3) // the reference is already carried by a committed transaction (id 2), possibly reverted since
+	if carrier {
+		op := g.send("alice", "sink", 5, "", "literal")
+		op.Reference = ref
+		setup = append(setup, op)
+		if r.Bool() {
+			setup = append(setup, g.revert("2", r.Bool()))
+		}
+	}
+	sc.Phases = append(sc.Phases, setupPhase(setup...))
 	n := r.Range(2, 6)
 	nClients := r.Range(2, 5)
 	plans := make([]ClientPlan, nClients)
@@ -462,6 +507,10 @@ func genReferences(r *vc.Rand) *Scenario {
 		}
 		c := r.Intn(nClients)
 		plans[c].Ops = append(plans[c].Ops, op)
+	}
+	if carrier && r.Chance(1, 3) { // the carrier is reverted while others try to take its reference
+		c := r.Intn(nClients)
+		plans[c].Ops = append([]Op{g.revert("2", true)}, plans[c].Ops...)
 	}
 	var cl []ClientPlan
 	for _, p := range plans {
@@ -603,6 +652,24 @@ func genPostingMode(r *vc.Rand) *Scenario {
 		n := r.Range(1, 12)
 		var ps []PostingJ
 		as := vc.Pick(r, c09Assets)
+		if r.Chance(1, 8) { // fan-out / collection over many distinct accounts
+			n = r.Range(9, 16)
+			hub := vc.Pick(r, []string{"world", "world", "alice"})
+			fanOut := r.Bool()
+			for k := 0; k < n; k++ {
+				leaf := fmt.Sprintf("leaf:%03d", k+r.Intn(2)*20)
+				q := PostingJ{hub, leaf, fmt.Sprint(k + 1), as}
+				if !fanOut && hub == "world" {
+					q = PostingJ{leaf, "world", "0", as}
+				} else if !fanOut {
+					q = PostingJ{leaf, hub, "0", as}
+				}
+				ps = append(ps, q)
+			}
+			op := g.postings(ps...)
+			op.Via = vc.Pick(r, []string{"", "", "v2", "v1", "bulk"})
+			return op
+		}
 		for k := 0; k < n; k++ {
 			if r.Chance(1, 4) {
 				as = vc.Pick(r, c09Assets)
@@ -664,6 +731,9 @@ func genWrites(r *vc.Rand) *Scenario {
 	sc.Phases = append(sc.Phases, setupPhase(g.fund("alice", 100), g.fund("bob", 100)))
 	sc.Phases = append(sc.Phases, Phase{Clients: g.clients(r.Range(2, 4), 2, func() Op {
 		op := g.mixedOp(2, true)
+		if r.Chance(1, 10) {
+			op = g.saveMetaEmpty()
+		}
 		if r.Chance(1, 8) && !op.DryRun {
 			op.IK = "ik-" + op.Tag
 		}
